@@ -256,6 +256,21 @@ def check_product(ctx, case):
     if len(results) != 3**m * 2**n:
         ctx.violation("product-size", f"{what}: {len(results)} results, expected 3^{m}*2^{n} = {3 ** m * 2 ** n}")
     ctx.nontrivial(["product", m, n, rcs, fcs])
+    # the same extract object after its (public, mutable) key lists were changed: the product of the CURRENT keys
+    if case.get("extend") and m + n <= 7:
+        extra_rc, extra_fc = case["extend"]
+        extract.requirement_constraint_keys.append(extra_rc)
+        extract.format_constraint_keys = extract.format_constraint_keys + [extra_fc]
+        again = capture(extract.generate_possible_content_evaluation_results)
+        ctx.count("products_after_changing_the_keys")
+        if again[0] != "ok":
+            ctx.violation("product-raises", f"{what}, then keys {extra_rc}/{extra_fc} added, generated again: {describe(again)}")
+            return
+        if len(again[1]) != 3 ** (m + 1) * 2 ** (n + 1):
+            ctx.violation("product-size", f"{what}: after adding requirement key {extra_rc} and format key {extra_fc} to the same extract, {len(again[1])} results are generated, expected 3^{m + 1}*2^{n + 1} = {3 ** (m + 1) * 2 ** (n + 1)}")
+            return
+        if not all(extra_rc in cer.requirement_constraints and extra_fc in cer.format_constraints for cer in again[1]):
+            ctx.violation("product-missing", f"{what}: after adding keys {extra_rc}/{extra_fc} the generated results do not mention them")
 
 
 async def run(ctx):
@@ -311,7 +326,7 @@ async def run(ctx):
                 rcs = [str(k) for k in rng.sample([1, 2, 3, 9, 10, 11, 100, 499, 2000, 2499, 250], m)]
                 fcs = [str(k) for k in rng.sample([901, 902, 903, 950, 999, 931, 932, 910], n)]
                 hints = [str(k) for k in rng.sample([500, 501, 900, 777], rng.randint(0, 3))]
-                check_product(ctx, {"rc": rcs, "fc": fcs, "hints": hints})
+                check_product(ctx, {"rc": rcs, "fc": fcs, "hints": hints, "extend": ["77", "977"]})
                 ctx.count("product_shapes")
     ctx.sample({"product": "all (m, n) up to (%d, %d)" % (max_m, max_n)}, cls="product")
 
